@@ -145,10 +145,41 @@ def corpus():
             out.append({'op': 'loop', 'domain': 'scalar', 'scalar': {'init': [[40, -35]]},
                         'config': dict(base, seed=seed, max_generations=N, hyper={'inner': 'dynamic', 'script': [], 'default': 1},
                                        population={'kind': 'greedy', 'selection_size': 3, 'script': [], 'default': -1})})
+    # C07-F3 (repaired by /repo 1ddcae7), operator level and deterministic: the last customer job of a tour whose optional break stands
+    # at the departure location is taken out and re-inserted by the real RecreateWithCheapest into the other (cheaper) vehicle;
+    # the lone break must not stay behind as a tour of its own
+    out.append(breakop_case())
     # track_population = 0: `generation % track_population` panics (modelled: EPanic; not judged: invalid telemetry configuration)
     out.append({'op': 'loop', 'domain': 'scalar', 'scalar': sc,
                 'config': dict(base, max_generations=2, track_population=0, hyper={'inner': 'dynamic', 'script': [], 'default': 1})})
     return out
+
+
+def breakop_case():
+    def veh(tid, fixed, time, breaks):
+        sh = {'start': {'earliest': '1970-01-01T00:00:00Z', 'location': {'index': 0}},
+              'end': {'latest': '1970-01-01T01:00:00Z', 'location': {'index': 0}}}
+        if breaks:
+            sh['breaks'] = [{'time': ['1970-01-01T00:00:00Z', '1970-01-01T00:10:00Z'], 'places': [{'duration': 5}]}]
+        return {'typeId': tid, 'vehicleIds': [tid + '_1'], 'profile': {'matrix': 'car'},
+                'costs': {'fixed': fixed, 'distance': 1, 'time': time}, 'shifts': [sh], 'capacity': [10]}
+    jobs = [{'id': 'A', 'services': [{'places': [{'location': {'index': 0}, 'duration': 10}]}]}]
+    obj = [{'type': 'minimize-unassigned'}, {'type': 'minimize-cost'}]
+    p1 = {'plan': {'jobs': jobs}, 'fleet': {'vehicles': [veh('v1', 10, 100, True)], 'profiles': [{'name': 'car'}]}, 'objectives': obj}
+    p2 = {'plan': {'jobs': jobs}, 'fleet': {'vehicles': [veh('v1', 10, 100, True), veh('v2', 1, 0, False)], 'profiles': [{'name': 'car'}]},
+          'objectives': obj}
+    return {'op': 'loop', 'domain': 'breakop', 'problem1': p1, 'problem2': p2, 'job': 'A',
+            'matrices': [{'profile': 'car', 'travelTimes': [0], 'distances': [0]}], 'config': {}}
+
+
+def only_breaks(jobs):
+    return bool(jobs) and all('_break_' in j for j in jobs)
+
+
+def breakop_holds(impl):
+    """the case is not vacuous: the job shared a tour with a break, and taking it out left the break alone"""
+    return isinstance(impl, dict) and any(len(r[1]) > 1 and any('_break_' in j for j in r[1]) for r in impl.get('before') or []) \
+        and any(only_breaks(r[1]) for r in impl.get('removed') or [])
 
 
 # ------------------------------------------------------------------------------------------------ reading a run
@@ -265,6 +296,8 @@ def _fits(impl):
 
 
 def model_term(c, impl):
+    if c.get('domain') == 'breakop':
+        return None                  # operator-level regression case: no model trace, the oracle judges the tours
     cfg = c['config']
     s = _sol(impl)
     if c.get('domain') == 'vrp' and s is not None and not e2e.unsupported(c, s):
@@ -301,6 +334,8 @@ def _panic_expected(c):
 
 
 def compare(c, impl, model):
+    if c.get('domain') == 'breakop':
+        return None
     _, (code, (gens, iters, metric, evo, polls, poplen, log)), gidx = model
     cfg = c['config']
     if isinstance(impl, dict) and 'panic' in impl:
@@ -403,6 +438,18 @@ def judged(c):
 
 
 def oracle(c, impl):
+    if c.get('domain') == 'breakop':
+        if isinstance(impl, dict) and 'panic' in impl:
+            return [{'class': 'loop-panic', 'what': 'the operator-level case panicked: %s' % str(impl['panic'])[:300]}]
+        if input_rejected(impl) or not isinstance(impl, dict) or impl.get('outcome') != 'ok':
+            return []
+        bad = [r for r in impl.get('after') or [] if only_breaks(r[1])]
+        if bad:
+            return [{'class': 'tour-serves-only-an-optional-break',
+                     'what': 'after the job was taken out of its tour and re-inserted by RecreateWithCheapest the solution keeps a tour that '
+                             'serves nothing but a break: before %s, after the removal %s, after the recreate %s' % (
+                                 json.dumps(impl.get('before')), json.dumps(impl.get('removed')), json.dumps(impl.get('after')))}]
+        return []
     cfg = c['config']
     N, k = cfg.get('max_generations'), cfg.get('quota_after_polls')
     where = 'max_generations %s, user termination %s, quota %s, heuristic script %s' % (
@@ -455,6 +502,8 @@ def oracle(c, impl):
 
 
 def oracle_model(c, impl, model):
+    if c.get('domain') == 'breakop':
+        return []
     s = _sol(impl)
     if c.get('domain') != 'vrp' or s is None or e2e.unsupported(c, s) or not judged(c):
         return []
@@ -475,12 +524,16 @@ def _empty_gens(impl):
 
 
 def nontrivial_key(c, impl):
+    if c.get('domain') == 'breakop':
+        return 'breakop' if breakop_holds(impl) else None
     if not isinstance(impl, dict) or 'panic' in impl or not _empty_gens(impl):
         return None
     return json.dumps({k: v for k, v in c.items() if k not in ('id', 'meta')}, sort_keys=True)
 
 
 def classify(c, impl):
+    if c.get('domain') == 'breakop':
+        return ['domain=breakop', 'breakop=%s' % ('break-left-alone-after-removal' if breakop_holds(impl) else 'VACUOUS')]
     cfg = c['config']
     labs = ['domain=' + str(c.get('domain')), 'max_generations=%s' % cfg.get('max_generations'),
             'user_termination=%s' % ('none' if cfg.get('user_termination') is None else 'some'),
@@ -506,6 +559,8 @@ def classify(c, impl):
 
 
 def shrink_candidates(c):
+    if c.get('domain') == 'breakop':
+        return
     cfg = c['config']
     for key in ('hyper', 'diverse', 'population'):
         sc = (cfg.get(key) or {}).get('script') or []
